@@ -4,7 +4,7 @@
    the occupancy split, the serial wrap, and "no made-up value".  The refinement read_pdb (render recs) = denote recs is
    established by correspondence only (see the level note). *)
 From Coq Require Import List Ascii String ZArith QArith Bool Lia.
-From PV Require Import Base.Sx Base.Text Base.Float Base.Group Spec.Hier Spec.PdbSpec Model.AddAtom Model.PdbLex Model.PdbParse Proofs.Decimal Proofs.C01just Proofs.C01line.
+From PV Require Import Base.Sx Base.Text Base.Float Base.Group Spec.Hier Spec.PdbSpec Model.AddAtom Model.PdbLex Model.PdbParse Proofs.Decimal Proofs.C01just Proofs.C01line Gen.PdbColumns Spec.PdbColumnsDoc.
 Import ListNotations.
 
 (* 1. inside a model: exactly one chain per chain id, in order of first appearance (and likewise one residue per key, one
@@ -89,6 +89,11 @@ Theorem C01_atom_line_read_back : forall ln het (segs : list text)
                 ab_resnum := resnum; ab_icode := opt_char ins; ab_element := element; ab_charge := 0 |} x y z occ b, []).
 Proof. exact atom_line_read_back. Qed.
 
+(* 9. the columns every function of the PDB lexer reads (regenerated from the source on every run, T6) are the columns of the
+      format description (Spec/PdbColumnsDoc.v, reviewed) *)
+Theorem C01_reader_columns_are_the_documented_columns : col_rows_eqb pdb_lexer_columns documented_columns = true.
+Proof. vm_compute. reflexivity. Qed.
+
 Print Assumptions C01_one_chain_per_id.
 Print Assumptions C01_occupancy_split_adds_up.
 Print Assumptions C01_wrap_continues.
@@ -98,3 +103,4 @@ Print Assumptions C01_field_justification.
 Print Assumptions C01_unsigned_field_reads_back.
 Print Assumptions C01_signed_field_reads_back.
 Print Assumptions C01_atom_line_read_back.
+Print Assumptions C01_reader_columns_are_the_documented_columns.
